@@ -16,6 +16,7 @@ static vp_gfiber_t g_tab[GSIZE];
 static _Atomic uint64_t g_epoch;
 static _Atomic long g_pending_total, g_sleepers, g_fdwaiters, g_live;
 static _Atomic uint64_t g_ticks;
+static _Atomic uint64_t g_tick0_ns, g_tick0_count;
 static const char* g_exec_prop = "C01";
 static const char* g_queue_prop = "C02";
 
@@ -323,6 +324,11 @@ static void ghost_obs(int point, const void* a, const void* b, int me) {
     }
     case FV_TIMER_TICKS:
       atomic_store(&g_ticks, *(const uint64_t*)a);
+      if (!atomic_load(&g_tick0_ns)) {
+        // calibration for diagnostics only: the tick base as a function of the monotonic clock
+        atomic_store(&g_tick0_count, *(const uint64_t*)a);
+        atomic_store(&g_tick0_ns, vp_now_ns());
+      }
       break;
     default:
       break;
@@ -351,6 +357,10 @@ long vp_ghost_sleepers(void) { return atomic_load(&g_sleepers); }
 long vp_ghost_fdwaiters(void) { return atomic_load(&g_fdwaiters); }
 long vp_ghost_live_fibers(void) { return atomic_load(&g_live); }
 uint64_t vp_ghost_ticks(void) { return atomic_load(&g_ticks); }
+uint64_t vp_ghost_clock_ticks(uint64_t at_ns) {
+  const uint64_t t0 = atomic_load(&g_tick0_ns);
+  return t0 && at_ns > t0 ? atomic_load(&g_tick0_count) + (at_ns - t0) / 5000000ULL : 0;
+}
 long vp_ghost_max_bypass(void) { return atomic_load(&g_max_bypass); }
 void vp_ghost_reset_bypass(void) { atomic_store(&g_max_bypass, 0); }
 void vp_ghost_set_bypass_limit(long base, long per_live_fiber) {
